@@ -23,19 +23,19 @@ THEOREM_CLASSES = {
     "C19_spans_disjoint_across_reuse": "main", "C19_finalize_unmaps_everything": "main",
     "C19_lalloc_history_ownership": "main", "C19_blocks_of_different_classes_disjoint": "corollary",
     "C19_small_block_disjoint_from_big": "corollary", "C19_big_blocks_disjoint": "corollary",
-    "C19_span_layer_supplies_accepted_span": "main", "C19_contents_preserved": "main",
+    "C19_span_layer_supplies_accepted_span": "corollary", "C19_heap_allocate_not_refused_partial": "main", "C19_contents_preserved": "main",
 }
 UNPROVED = [
     "'pairwise disjoint while live' as ONE statement over L_alloc histories: proved in three pieces - within a class over any alloc/free history (C19_span_machine_history), across classes and against large/huge blocks from the ownership invariant over any l_alloc history (C19_lalloc_history_ownership + corollaries), geometry (C19_blocks_disjoint) - but the glue 'the class-level live list is the projection of the heap-level live list' is not proved, so no single theorem quantifies over mixed histories with a ghost set of live blocks",
     "'contents preserved across reallocation': C19_contents_preserved is about an abstract memory and one memcpy; that l_alloc performs exactly this copy (and the in-place case writes nothing) is read from the code, the fill patterns of the harness test it",
-    "'returns all memory to the OS when finalized': proved for the span-layer MODEL (C19_finalize_unmaps_everything); the model is tied to srpmalloc.c only through observable consequences (span inside a live mapping, master flags/total_spans, remaining_spans >= span_count on every operation) and the map/unmap balance at every finalize, not operation by operation",
-    "the coupling premise of C19_span_layer_supplies_accepted_span (every span the heap owns is an InUse object of the span-layer state) is not maintained by a combined machine: heap model and span-layer model are separate state machines",
+    "'returns all memory to the OS when finalized': proved for the span-layer MODEL (C19_finalize_unmaps_everything); the model follows srpmalloc.c operation by operation on the span-snapshot streams (state read from the allocator's caches, reserve, class lists and span headers after every call), but rpmalloc_finalize itself is compared only through the map/unmap balance, not replayed",
+    "C19_lalloc_history_ownership excludes by construction the histories in which the environment offers a span that is in use (CErrOracle -> lrun = None). C19_heap_allocate_not_refused_partial discharges that for ONE step under the coupling invariant (the heap's spans are the other objects of the span-layer state); that the coupling is maintained along a combined heap + span-layer history (a combined machine) is not proved. Both models are however run against srpmalloc.c operation by operation (block trace and span-layer snapshots), and the span-layer invariant is evaluated on the allocator's own state after every operation",
     "span caches' size limits and reuse order; the global reserve (unused when span_map_count <= heap_reserve_count and page size <= span size)",
     "the OS returning span-aligned, non-overlapping mappings (checked at run time by the map hook)",
     "multi-threading / deferred frees (the interpreter is single threaded)",
 ]
 MANIFEST_ENTRY = {
-    "text": "proof, partial: theorems cover, for the model of srpmalloc.c as L_alloc uses it, 16-byte alignment and containment of every block, usable size >= requested in all four regimes and across realloc (every 64-bit size), the per-class span machine over any alloc/free history (partition of indices, no double hand-out, exact used_count), span ownership over any history of L_alloc calls (different classes / large / huge blocks never share a span), the span layer over any history (no overlap across cache reuse, finalize unmaps every region) and the copy performed by a moving realloc. Not one end-to-end theorem: the pieces are joined by stated glue (UNPROVED); content preservation and return of memory in the real allocator rest on the C harness (fill patterns, map/unmap balance).",
+    "text": "proof, partial: theorems cover, for the model of srpmalloc.c as L_alloc uses it, 16-byte alignment and containment of every block, usable size >= requested in all four regimes and across realloc (every 64-bit size), the per-class span machine over any alloc/free history (partition of indices, no double hand-out, exact used_count), span ownership over any history of L_alloc calls (different classes / large / huge blocks never share a span), the span layer over any history (no overlap across cache reuse, finalize unmaps every region; this model is replayed against the allocator's span bookkeeping operation by operation), one-step acceptance of span-layer spans by the heap model and the copy performed by a moving realloc. Not one end-to-end theorem: the pieces are joined by stated glue (UNPROVED); content preservation and return of memory in the real allocator rest on the C harness (fill patterns, map/unmap balance).",
     "note": "trusted: Coq kernel, hand-written models of srpmalloc.c (tied by regenerated #defines/guards, by op-by-op trace correspondence of the heap model against the real allocator, and by observable consequences for the span layer), extraction, C harness (includes srpmalloc.c and the text of L_alloc from lua.c), gcc/clang+ASan/UBSan; assumes span-aligned non-overlapping OS mappings, single thread; reads src/lua/lua.c and the Makefile besides srpmalloc.c",
     "technique": "machine-checked proof in Coq over executable models + regenerated parameters + extracted-model/implementation trace correspondence; shadow-map property oracle in C",
 }
@@ -333,6 +333,151 @@ def targeted_ops(rng, table, K):
     return ops
 
 
+def parse_snapshots(out):
+    """Span-layer snapshots printed by the harness after 'P': list of (op, regions{base:(total,remaining)}, objs{start:(count,master,status)})."""
+    snaps, cur = [], None
+    for line in out.split("\n"):
+        if line.startswith("SS "):
+            cur = (int(line.split()[1]), {}, {})
+        elif cur is not None and line.startswith("SR "):
+            w = line.split()
+            cur[1][int(w[1], 16)] = (int(w[2]), int(w[3]))
+        elif cur is not None and line.startswith("SO "):
+            w = line.split()
+            cur[2][int(w[1], 16)] = (int(w[2]), int(w[3], 16), w[4])
+        elif cur is not None and line.startswith("SG "):
+            cur[2][-1] = ("global-reserve", line)
+        elif line == "SE" and cur is not None:
+            snaps.append(cur)
+            cur = None
+    return snaps
+
+
+def span_invariant(snap):
+    """Theorem right-hand side (sinv of ProofsSpans.v) evaluated on the IMPLEMENTATION's state: spans pairwise disjoint,
+    each inside its region, a region's remaining_spans = number of spans of it the allocator still knows."""
+    op, regs, objs = snap
+    bad = []
+    iv = sorted((s, s + c) for s, (c, m, st) in objs.items() if s >= 0)
+    for (a, b), (a2, b2) in zip(iv, iv[1:]):
+        if a2 < b:
+            bad.append("spans %x+%d and %x overlap" % (a, b - a, a2))
+    owned = {}
+    for s, (cnt, m, st) in objs.items():
+        if s < 0:
+            continue
+        owned[m] = owned.get(m, 0) + cnt
+        if m not in regs:
+            bad.append("span %x names master %x which is not a live mapping" % (s, m))
+        elif not (m <= s and s + cnt <= m + regs[m][0]) or cnt < 1:
+            bad.append("span %x+%d is not inside its mapping %x+%d" % (s, cnt, m, regs[m][0]))
+    for base, (total, rem) in regs.items():
+        if rem != owned.get(base, 0):
+            bad.append("mapping %x: remaining_spans=%d but the allocator knows %d spans of it" % (base, rem, owned.get(base, 0)))
+    return bad
+
+
+def derive_span_ops(prev, cur, map_count, first):
+    """Model operations (ProofsSpans.v) that turn snapshot prev into snapshot cur."""
+    ops = []
+    _, pregs, pobjs = prev
+    _, cregs, cobjs = cur
+    # new mappings: the master span is handed out with span_count n; the heap control mapping has no reserve
+    for base in sorted(b for b in cregs if b not in pregs):
+        n = cobjs[base][0] if base in cobjs else cregs[base][0]
+        ops.append("SM %d %x %d" % (n, base, n if (first or cregs[base][0] < map_count and cregs[base][0] == n) else map_count))
+    newmap = any(b not in pregs for b in cregs)
+    carve, release, other, to_res, unmap = [], [], [], [], []
+    handled = set()
+    for s, (cnt, m, st) in pobjs.items():
+        if s < 0 or st != "R" or newmap:
+            continue
+        # the reserve was carved (partly or completely): an object now starts where the reserve started
+        if s in cobjs and cobjs[s][2] != "R" and cobjs[s][0] <= cnt:
+            carve.append("SF %d" % cobjs[s][0])
+            handled.add(s)
+            if cobjs[s][2] == "C":
+                other.append("ST %x U C" % s)
+    for s in sorted(pobjs):
+        if s in handled or s < 0:
+            continue
+        if s not in cobjs:
+            if pobjs[s][2] == "U":
+                release.append("ST %x U C" % s)
+            unmap.append("SU %x" % s)
+        elif cobjs[s][:2] == pobjs[s][:2] and cobjs[s][2] != pobjs[s][2]:
+            a, b2 = pobjs[s][2], cobjs[s][2]
+            if a == "R" and newmap:
+                continue        # op_map already moved the old reserve to the cache
+            (to_res if b2 == "R" else release if a == "U" else other).append("ST %x %s %s" % (s, a, b2))
+    # order: releases, carving of the reserve, remaining status changes (cache -> use), a span kept as the new reserve, unmaps
+    return ops + release + carve + other + to_res + unmap
+
+
+def snap_text(snap):
+    _, regs, objs = snap
+    rs = sorted("R %x %d %d" % (b, t, r) for b, (t, r) in regs.items())
+    os_ = sorted("O %x %d %x %s" % (s, c, m, st) for s, (c, m, st) in objs.items() if s >= 0)
+    return "D " + ";".join(rs + os_)
+
+
+def span_layer_correspondence(ctx, exe, driver, name, cmds, cov):
+    """Run a history with span snapshots, check the invariant on every snapshot (oracle) and replay the
+    derived operations through the extracted span machine (model must reach the same state)."""
+    rc, out, e = run_harness(exe, "P\n" + "\n".join(cmds) + "\n", trace=False, timeout=ctx.scale(120, 600))
+    snaps = parse_snapshots(out)
+    mc = 64
+    for line in out.split("\n"):
+        if line.startswith("K span_map_count"):
+            mc = int(line.split()[2])
+    d = {"snapshots": len(snaps), "model_ops": 0}
+    if rc not in (0, 3) or not snaps:
+        fl = [l for l in out.split("\n") if l.startswith("FAIL")]
+        ctx.violation("history:span-layer:%s" % name, "oracle", "harness died (rc=%s) while tracing the span layer on %s after %d snapshots; first failure: %s" %
+                      (rc, name, len(snaps), fl[0] if fl else "none reported"), detail={"commands": cmds[:40]})
+        cov["oracle_failures"] += 1
+        if not snaps:
+            return d
+    for sn in snaps:
+        bad = span_invariant(sn)
+        if bad:
+            cov["oracle_failures"] += 1
+            ctx.violation("history:span-layer:%s" % name, "oracle",
+                          "span bookkeeping of the allocator violates the invariant after op %d of %s: %s" % (sn[0], name, "; ".join(bad[:3])),
+                          detail={"commands": cmds[:40], "replay": "printf 'P\\n<commands>\\n' | %s" % exe})
+            break
+    lines = ["SX"]
+    marks = []
+    empty = (0, {}, {})
+    prev = empty
+    for k, sn in enumerate(snaps):
+        ops = derive_span_ops(prev, sn, mc, first=(k == 0))
+        lines += ops + ["SD"]
+        marks.append(len(ops))
+        d["model_ops"] += len(ops)
+        prev = sn
+    rc2, mout, me = vlib.sh([driver], input="\n".join(lines) + "\n", timeout=600)
+    dumps, refused, acc = [], [], []
+    for l in mout.split("\n"):
+        if l.startswith("REFUSED"):
+            acc.append(l)
+        elif l.startswith("D "):
+            dumps.append(l)
+            refused.append(acc)
+            acc = []
+    for k, sn in enumerate(snaps):
+        want = snap_text(sn)
+        got = dumps[k] if k < len(dumps) else "<no output>"
+        if got != want or refused[k]:
+            cov["model_mismatches"] += 1
+            ctx.violation("model-mismatch:span-layer:%s" % name, "correspondence",
+                          "span-layer model (ProofsSpans.v) no longer follows the allocator on %s at op %d: %s; implementation state %s; model state %s" %
+                          (name, sn[0], ("model refuses " + "; ".join(refused[k])) if refused[k] else "states differ", want[:400], got[:400]),
+                          detail={"derived_ops": derive_span_ops(snaps[k - 1] if k else empty, sn, mc, k == 0), "commands": cmds[:40]}, failing_input=False)
+            break
+    return d
+
+
 def parse_harness(out):
     K, table, O, fails, summary, M, X = {}, [], [], [], None, [], []
     for line in out.split("\n"):
@@ -500,6 +645,20 @@ def correspond(ctx):
                 break
         if len(samples) < 6 and O:
             samples.append({"stream": st.name, "replay": st.replay, "first_ops": [" ".join(w) for w in O[:3]]})
+
+    # ---- span layer: operation-by-operation correspondence of the span machine of ProofsSpans.v with the allocator
+    span_cov = {}
+    span_streams = [("targeted-large-cache", [l for l in tops if l != "F"][-200:]),
+                    ("corpus-huge-and-span-cache", [l for l in vlib.read(os.path.join(vlib.VERIF, "corpus", ID, "huge_and_span_cache.ops")).split("\n") if l and not l.startswith("#") and l != "F"])]
+    span_streams.append(("corpus-master-recarved", [l for l in vlib.read(os.path.join(vlib.VERIF, "corpus", ID, "master_recarved.ops")).split("\n") if l and not l.startswith("#")]))
+    for i in range(ctx.scale(3, 12)):
+        prof = [2, 3, 0][i % 3]
+        span_streams.append(("random-p%d-%d" % (prof, i), ["G %d %d %d %d" % (rng.randrange(1, 1 << 40), ctx.scale(1500, 6000), rng.choice([8, 64, 300]), prof)]))
+    for name, cmds in span_streams:
+        span_cov[name] = span_layer_correspondence(ctx, exe, driver, name, cmds, cov)
+        evaluations += span_cov[name].get("snapshots", 0)
+    cov["streams"]["span-layer"] = {"runs": len(span_streams), "snapshots": sum(v.get("snapshots", 0) for v in span_cov.values()),
+                                    "model_ops_replayed": sum(v.get("model_ops", 0) for v in span_cov.values())}
 
     # ---- untraced volume runs (property oracle only, in C)
     vol = ctx.scale([(1, 120000)], [(1, 6000000)] * 8 + [(0, 2000000)] * 4 + [(3, 150000)] * 2)
